@@ -218,6 +218,14 @@ SIG = {
                            [('hashlib_sha256', 'Bytes → Bytes'), ('OPS', 'List (String × Bytes)'), ('self_key_bytes', 'Bytes'),
                             ('pubkey_bytes', 'Bytes'), ('tx_digest', 'Bytes'), ('sighash', 'Int'), ('scripts', 'Py.PyScripts'),
                             ('tweak', 'Bool')], 'Bytes'),
+    # signed messages: PublicKey(message=, signature=) — the recovery branch of the constructor (python-ecdsa's
+    # from_public_key_recovery_with_digest a parameter; the message as its UTF-8 bytes) — and PublicKey.verify (base64 and verify_digest parameters)
+    'pubkey_recover': ('keys.py', 'PublicKey.__init__',
+                       [('hashlib_sha256', 'Bytes → Bytes'), ('recover_keys', 'Bytes → Bytes → Except PyErr (List (Nat × Nat))'),
+                        ('message', 'Bytes'), ('signature', 'Bytes')], 'Nat × Nat'),
+    'pubkey_verify': ('keys.py', 'PublicKey.verify',
+                      [('hashlib_sha256', 'Bytes → Bytes'), ('b64decode', 'Bytes → Except PyErr Bytes'),
+                       ('verify_digest', 'Bytes → Bytes → Except PyErr Bool'), ('signature', 'Bytes'), ('message', 'Bytes')], 'Bool'),
     # segwit address objects: bech32.py's decode / encode (translated above) under the configured network's prefix (a parameter)
     'segwit_address_to_hash': ('keys.py', 'SegwitAddress._address_to_hash',
                                [('segwit_hrp', 'List Char'), ('self_segwit_num_version', 'Int'), ('address', 'List Char')], 'Bytes'),
@@ -252,6 +260,7 @@ SIG = {
                               'Bytes'),
 }
 # the public signing wrappers: methods called on the transaction object / on self -> generated functions
+MSGFUNS = {'pubkey_recover', 'pubkey_verify'}
 WRAPFUNS = {'pk_sign_input', 'pk_sign_segwit_input', 'pk_sign_taproot_input'}
 TX_METHODS = {'get_transaction_digest': 'legacy_digest', 'get_transaction_segwit_digest': 'segwit_digest',
               'get_transaction_taproot_digest': 'taproot_digest'}
@@ -909,7 +918,34 @@ class Tr:
         if set(given) - {gp for gp, _ in gparams}: s.fail(n, 'argument that the generated callee does not take')
         return s.eff(f'{gen} ' + ' '.join(out))
 
+    def e_msg(s, n):
+        if isinstance(n, ast.Call) and isinstance(n.func, ast.Name):
+            f = n.func.id; a = n.args
+            if f == 'add_magic_prefix' and len(a) == 1 and not n.keywords and s.isbytes(a[0]): return s.eff(f'add_magic_prefix {s.e(a[0])}')
+            if f == 'b64decode' and 'b64decode' in s.params and len(a) == 1 and not n.keywords: return s.eff(f'b64decode {s.e(a[0])}')
+        if isinstance(n, ast.Call) and isinstance(n.func, ast.Attribute):
+            f = n.func; kw = {k.arg: k.value for k in n.keywords}
+            if (f.attr == 'encode' and len(n.args) == 1 and isinstance(n.args[0], ast.Constant) and n.args[0].value == 'utf-8' and not kw
+                    and isinstance(f.value, ast.Name) and f.value.id in s.params and s.isbytes(f.value)):
+                return f.value.id            # a str parameter is its UTF-8 bytes
+            if (f.attr == 'from_public_key_recovery_with_digest' and isinstance(f.value, ast.Name) and f.value.id == 'VerifyingKey'
+                    and 'recover_keys' in s.params and len(n.args) == 2 and set(kw) == {'curve', 'hashfunc', 'sigdecode'}
+                    and getattr(kw['curve'], 'id', '') == 'SECP256k1' and getattr(kw['sigdecode'], 'id', '') == 'sigdecode_string'
+                    and isinstance(kw['hashfunc'], ast.Attribute) and kw['hashfunc'].attr == 'sha256'):
+                return s.eff(f'recover_keys {s.e(n.args[0])} {s.e(n.args[1])}')
+            if (f.attr == 'verify_digest' and isinstance(f.value, ast.Attribute) and f.value.attr == 'key' and isinstance(f.value.value, ast.Name)
+                    and f.value.value.id == 'self' and 'verify_digest' in s.params and len(n.args) == 2 and set(kw) == {'sigdecode'}
+                    and getattr(kw['sigdecode'], 'id', '') == 'sigdecode_string'):
+                return s.eff(f'verify_digest {s.e(n.args[0])} {s.e(n.args[1])}')
+        if (isinstance(n, ast.Subscript) and isinstance(n.value, ast.Name) and n.value.id == 'recovered_keys' and s.name == 'pubkey_recover'
+                and not isinstance(n.slice, ast.Slice)):
+            return s.eff(f'Py.listGet recovered_keys {s.e(n.slice)}')
+        return None
+
     def e(s, n):
+        if s.name in MSGFUNS:
+            r = s.e_msg(n)
+            if r is not None: return r
         if s.name in WRAPFUNS:
             r = s.e_wrap(n)
             if r is not None: return r
@@ -1294,6 +1330,7 @@ class Tr:
             if nm == 'full_pubkey_gen' and s.name in TWEAKFUNS: return True
             if s.name in PUBFUNS and nm in ('to_string', 'to_hex', '_to_hash160'): return True
             if s.name in WRAPFUNS and (nm in TX_METHODS or nm in SELF_SIGNERS): return True
+            if s.name in MSGFUNS and nm in ('add_magic_prefix', 'b64decode'): return True
             if s.name == 'sign_input' and nm in ('sign_digest_deterministic', 'sigencode_der'): return True
             if s.name in ('from_wif', 'to_wif', 'is_address_valid', 'address_to_hash160') and nm in ('b58decode',): return True
             if s.name == 'to_wif' and nm == 'to_bytes' and isinstance(f, ast.Attribute) and getattr(f.value, 'id', '') == 'self': return True
@@ -1862,6 +1899,8 @@ class Tr:
         """A constructor called with `param` only — the parameters `others` keep their default None.  The body must be one
         `if param: … elif <other>: … … else: raise …` chain; the `elif`s test parameters that are None, so the translation keeps the first
         branch and the final raise.  `self.<field> = E` as the last thing a path does becomes `return E`."""
+        import copy as _copy
+        node = _copy.deepcopy(node)          # the parsed module is shared between the functions translated from it
         body = [st for st in node.body if not (isinstance(st, ast.Expr) and isinstance(st.value, ast.Constant))]
         defaults = {a.arg: d for a, d in zip(node.args.args[-len(node.args.defaults):], node.args.defaults)} if node.args.defaults else {}
         for k in others:
@@ -1894,11 +1933,40 @@ class Tr:
         node.body = [top]
         return node
 
+    def ctor_recover_branch(s, node):
+        """PublicKey.__init__ called as PublicKey(message=…, signature=…): hex_str keeps its default None, so `if hex_str:` is not taken and
+        the translation is the `elif message or signature: … else: raise` part.  `self.key = E` as the last statement becomes `return E`."""
+        import copy as _copy
+        node = _copy.deepcopy(node)          # the parsed module is shared between the functions translated from it
+        body = [st for st in node.body if not (isinstance(st, ast.Expr) and isinstance(st.value, ast.Constant))]
+        defaults = {a.arg: d for a, d in zip(node.args.args[-len(node.args.defaults):], node.args.defaults)} if node.args.defaults else {}
+        if not ('hex_str' in defaults and isinstance(defaults['hex_str'], ast.Constant) and defaults['hex_str'].value is None):
+            s.fail(node, 'constructor parameter hex_str no longer defaults to None')
+        if not (len(body) == 1 and isinstance(body[0], ast.If) and isinstance(body[0].test, ast.Name) and body[0].test.id == 'hex_str'
+                and len(body[0].orelse) == 1 and isinstance(body[0].orelse[0], ast.If)):
+            s.fail(node, 'constructor shape')
+        mid = body[0].orelse[0]
+        if not (len(mid.orelse) == 1 and isinstance(mid.orelse[0], ast.Raise)): s.fail(node, 'constructor shape: else raise')
+        for x in ast.walk(mid):
+            if isinstance(x, ast.Name) and x.id == 'hex_str': s.fail(x, 'the recovery branch reads hex_str')
+        last = mid.body[-1] if mid.body else None
+        if not (isinstance(last, ast.Assign) and len(last.targets) == 1 and isinstance(last.targets[0], ast.Attribute)
+                and isinstance(last.targets[0].value, ast.Name) and last.targets[0].value.id == 'self' and last.targets[0].attr == 'key'):
+            s.fail(node, 'the recovery branch does not end in self.key = …')
+        mid.body[-1] = ast.copy_location(ast.Return(value=last.value), last)
+        for x in ast.walk(mid):
+            if isinstance(x, ast.Attribute) and isinstance(x.value, ast.Name) and x.value.id == 'self':
+                s.fail(x, 'self.* used other than as the final `self.key = …`')
+        node.body = [mid]
+        return node
+
     def ctor_hex_branch(s, node):
         """PublicKey.__init__ called as PublicKey(hex_str) with a str — message and signature keep their default None.  The body must be
         `if hex_str: … elif message or signature: … else: raise TypeError`; with both None the middle test is false, so the translation
         keeps the first branch and the final raise.  `self.key = E` as the last thing a path does becomes `return E`; a path that
         ends without setting it falls through (Python returns an object without a key)."""
+        import copy as _copy
+        node = _copy.deepcopy(node)          # the parsed module is shared between the functions translated from it
         body = [st for st in node.body if not (isinstance(st, ast.Expr) and isinstance(st.value, ast.Constant))]
         defaults = {a.arg: d for a, d in zip(node.args.args[-len(node.args.defaults):], node.args.defaults)} if node.args.defaults else {}
         for k in ('message', 'signature'):
@@ -1985,6 +2053,11 @@ class Tr:
                                  and getattr(st.value.func.value, 'id', '') == 'Script'))):
                     out.append(f'  let mut {nm} := ([] : List Py.PyTok)')
                     s.declared.add(nm); s.toklists.add(nm)
+                    continue
+                if (nm not in top and nm not in s.declared and s.name == 'pubkey_recover' and isinstance(st.value, ast.Call)
+                        and isinstance(st.value.func, ast.Attribute) and st.value.func.attr == 'from_public_key_recovery_with_digest'):
+                    out.append(f'  let mut {nm} : List (Nat × Nat) := []')
+                    s.declared.add(nm)
                     continue
                 if (nm not in top and nm not in s.declared and s.name == 'block_from_raw' and isinstance(st.value, ast.Call)
                         and isinstance(st.value.func, ast.Attribute) and st.value.func.attr == 'from_raw'
@@ -2104,6 +2177,8 @@ class Tr:
             node = RC().visit(node)
         if s.name == 'pubkey_from_hex':
             node = s.ctor_hex_branch(node)
+        if s.name == 'pubkey_recover':
+            node = s.ctor_recover_branch(node)
         if s.name == 'address_init_hash160':
             node = s.ctor_branch(node, 'hash160', ['address', 'script'], 'hash160')
         strpre = []
